@@ -934,6 +934,14 @@ def _has(ev, node):
     return wrap_bool(z3.Or(p.has("I", key, jt), p.has("S", key, jt)))
 
 
+@specfn("HasIn")
+def _hasin(ev, node):
+    """HasIn(candles, j, name, 'I'|'S'): the key is present in candle.indicators ('I') / candle.sub_indicators ('S')"""
+    ser, j, key, which = [ev.e(a) for a in node.args]
+    p = ev.heap[ser.oid]
+    return wrap_bool(p.has(which, key, to_int_term(j)))
+
+
 @specfn("HasAny")
 def _hasany(ev, node):
     """HasAny(candles, j, names): some name of the (concrete) set is present on candle j"""
